@@ -31,6 +31,12 @@ def handle (j : Json) : Json :=
     let evs := (getArr j "events").filterMap evOf
     let (s, outs) := runEvs excl (init n) evs
     Json.mkObj [("outs", jarr (outs.map outJ)), ("file", fileJ s.file), ("holders", jnats (holders s))]
+  | "readlock" =>
+    let res := match readLock (getNat j "limit") (getNat j "refuse") (getStr j "content") with
+      | .ok _ => "ok"
+      | .error .tooLong => "tooLong"
+      | .error .notANumber => "notANumber"
+    Json.mkObj [("res", Json.str res)]
   | "steps" =>
     -- a lock file left by a dead process `n` when "stale" is set
     let s0 : St := if getBool j "stale" then { file := some n, pcs := List.replicate n .idle ++ [.dead] } else init n
